@@ -92,6 +92,9 @@ func (o *h3Origin) serveStream(str quic.Stream) {
 	for {
 		t, err := quicvarint.Read(br)
 		if err != nil {
+			if err != io.EOF { // not a FIN: the peer reset the stream (an aborted upload must look like this)
+				obs.Err = "stream not ended by FIN: " + err.Error()
+			}
 			break
 		}
 		l, err := quicvarint.Read(br)
